@@ -6,7 +6,8 @@
    between is explored in every interleaving.                               *)
 EXTENDS CoreBGP
 
-CONSTANTS MaxNow, TMaxConns, TMaxMsgs, TPassive, TAlphabet
+CONSTANTS MaxNow, TMaxConns, TMaxMsgs, TPassive, TAlphabet,
+          TStall      \* the remote may stop and resume reading (write back-pressure)
 
 P == "p"
 TSec(n) == n
@@ -60,6 +61,7 @@ Env ==
           /\ conn[c].held /\ ~conn[c].lclosed /\ ~conn[c].reof /\ conn[c].rx < TMaxMsgs
           /\ EnvSend(c, <<MsgOf(a)>>, <<>>, FALSE)
      \/ \E c \in DOMAIN conn : conn[c].held /\ ~conn[c].lclosed /\ ~conn[c].reof /\ EnvRClose(c)
+     \/ TStall /\ \E c \in DOMAIN conn : conn[c].held /\ ~conn[c].lclosed /\ ~conn[c].reset /\ EnvStall(c, ~conn[c].stalled)
      \/ /\ now < MaxNow /\ now' = now + 1                     \* one tick
         /\ UNCHANGED <<cfg, srv, calls, pm, fsm, conn, dial, out, gh>>
 
